@@ -1,5 +1,5 @@
 INIT TInit
 NEXT TNext
-CONSTANT Big = FALSE
+CONSTANT Big = FALSE Wide = FALSE
 POSTCONDITION Post
 CHECK_DEADLOCK FALSE
